@@ -107,7 +107,7 @@ func slots(e *m.Expr) []slot {
 var Mutations = []string{"replace-subexpr", "hetero-element", "hetero-key", "hetero-value", "composite-key", "duplicate-field",
 	"unknown-field", "subscript-non-container", "non-numeric-index", "wrong-key-type", "arity-plus", "arity-minus",
 	"undefined-var", "reserved-var", "optional-for-payload", "inconsistent-typevar", "call-non-function", "empty-literal-mix",
-	"member-on-non-object", "cond-not-bool"}
+	"member-on-non-object", "cond-not-bool", "payload-for-optional"}
 
 // Mutate applies one mutation to a copy of e and returns it with the
 // mutation's name ("" if the mutation found no place to apply).
@@ -287,6 +287,9 @@ func (g *G) Mutate(e *m.Expr) (*m.Expr, string) {
 		return wrapTop(func(x *m.Expr) *m.Expr {
 			return m.Member(g.literal(pick(g.T, "nobj", []*m.Type{m.Num, m.Str, m.List(m.Num), m.Map(m.Str, m.Num)}), 1), "a")
 		})
+	case "payload-for-optional":
+		// get(x, d) where x is not optional
+		return wrapTop(func(x *m.Expr) *m.Expr { return m.Call("get", x, x.Clone()) })
 	case "cond-not-bool":
 		return wrapTop(func(x *m.Expr) *m.Expr {
 			return m.Call("if", g.literal(pick(g.T, "nb", []*m.Type{m.Num, m.Str, m.List(m.Bool)}), 1), x, x.Clone())
